@@ -47,21 +47,41 @@ def _class_fuzzy(cls):
 
 
 def _returns(fn):
+    """every return of the function, with the value it returns: `x = <call>; return x` (the name untouched in between, same
+    block) is read as `return <call>`"""
     out = []
 
-    def walk(node):
-        for ch in ast.iter_child_nodes(node):
-            if isinstance(ch, (ast.FunctionDef, ast.Lambda, ast.ClassDef)):
+    def mentions(stmt, name):
+        return any(isinstance(n, ast.Name) and n.id == name for n in ast.walk(stmt))
+
+    def resolve(ret, block, idx):
+        v = ret.value
+        if isinstance(v, ast.Name):
+            for j in range(idx - 1, -1, -1):
+                st = block[j]
+                if isinstance(st, ast.Assign) and len(st.targets) == 1 and isinstance(st.targets[0], ast.Name) and st.targets[0].id == v.id:
+                    return st.value
+                if mentions(st, v.id):
+                    break
+        return v
+
+    def walk_block(block):
+        for idx, st in enumerate(block):
+            if isinstance(st, (ast.FunctionDef, ast.ClassDef)):
                 continue
-            if isinstance(ch, ast.Return):
-                out.append(ch)
-            walk(ch)
-    walk(fn)
+            if isinstance(st, ast.Return):
+                out.append(resolve(st, block, idx))
+            for field in ("body", "orelse", "finalbody"):
+                sub = getattr(st, field, None)
+                if isinstance(sub, list):
+                    walk_block(sub)
+            for h in getattr(st, "handlers", []) or []:
+                walk_block(h.body)
+    walk_block(fn.body)
     return out
 
 
-def _classify_return(ret, env):
-    v = ret.value
+def _classify_return(v, env):
     if isinstance(v, ast.Call) and isinstance(v.func, ast.Name) and v.func.id == "insure_fuzzy" and len(v.args) == 3 \
             and not v.keywords:
         lo, hi = _intval(v.args[1], env), _intval(v.args[2], env)
